@@ -17,7 +17,7 @@ from ..hist import RULE_SUFFIX as _RS
 RULE = RULE + _RS
 ASSUMPTIONS = ['"a small constant times eps" is fixed a priori as 10*eps', 'C++ backend off here (use_cpp=False); C17 covers it', 'amen_mv/amen_mm are exercised with real dtypes (their inner products are not conjugated)']
 REQUIRED_REACH = ['_dmrg:dmrg_matvec_python', '_dmrg:dmrg_hadamard_python', '_amen:_amen_mm_python', '_amen:amen_mv', '_amen:amen_mm', '_tt_base:TT.fast_matvec']
-REQUIRED_COUNTS = {'history_value_checks': 100, 'routine:fast_matvec': 1, 'routine:dmrg_hadamard': 1, 'routine:amen_mv': 1, 'routine:amen_mm': 1, 'guess:user': 1, 'guess:coarse': 10, 'budget:nswp=1': 1, 'budget:nswp=2': 1, 'order:1': 1, 'order:2': 1, 'executions': 300}
+REQUIRED_COUNTS = {'history_value_checks': 100, 'routine:fast_matvec': 1, 'routine:dmrg_hadamard': 1, 'routine:amen_mv': 1, 'routine:amen_mm': 1, 'guess:user': 1, 'guess:coarse': 10, 'guess:block': 5, 'budget:nswp=1': 1, 'budget:nswp=2': 1, 'order:1': 1, 'order:2': 1, 'executions': 300}
 LINE_FUNCS = ['dmrg_matvec_python', 'dmrg_hadamard_python', '_amen_mm_python']
 CASE_TIMEOUT = {'quick': 180, 'thorough': 400}
 MAX_TIMEOUT_FRACTION = 0.0
@@ -81,6 +81,13 @@ def cases(tier, seed):
         cs.append({'gen': 'prod', 'routine': routine, 'M': M, 'N': N, 'K': [rng.randint(2, 3) for _ in range(d)], 'RA': [1] + [rng.randint(2, 4) for _ in range(d - 1)] + [1],
                    'RB': [1] + [rng.randint(2, 4) for _ in range(d - 1)] + [1], 'vals': ['gauss', 'decay'][(i // 4) % 2], 'eps': 10 ** rng.uniform(-10, -4), 'guess': 'coarse',
                    'coarse_eps': [0.3, 0.1, 0.02][(i // 8) % 3], 'dtype': 'f64', 'vseed': rng.randrange(2 ** 40), 'RG': [1] * (d + 1), 'sidx': 0, 'scale': 1.0})
+    # directed: "block" guesses - the operands are direct sums over two disjoint index blocks (x = x1 (+) x2, A = A1 (+) A2) and the guess is the exact product of the
+    # FIRST blocks only: it is a fixed point of every update that keeps the frames of the guess, and only enrichment can find the second block
+    for i in range(16 if not T else 160):
+        routine = ['fast_matvec', 'dmrg_hadamard', 'amen_mv', 'fast_matvec'][i % 4]
+        d = rng.choice([3, 4])
+        cs.append({'gen': 'prod', 'routine': routine, 'M': [3] * d, 'N': [3] * d, 'K': [2] * d, 'RA': [1] + [2] * (d - 1) + [1], 'RB': [1] + [2] * (d - 1) + [1], 'vals': 'gauss',
+                   'eps': 10 ** rng.uniform(-10, -5), 'guess': 'block', 'dtype': 'c128' if (i % 8 == 5 and routine != 'amen_mv') else 'f64', 'vseed': rng.randrange(2 ** 40), 'RG': [1] * (d + 1), 'sidx': 0, 'scale': 1.0})
     # directed: exhausted sweep budget (nswp=1,2): the final-sweep branch of the DMRG/AMEn loops (no enrichment, transposed factor); the accuracy clause is NOT demanded here
     # (the statement is about the default budgets) - only kind/shape/well-formed/finite
     for i in range(24 if not T else 160):
@@ -167,6 +174,51 @@ def run_case(case, ctx):
             guess = mk(case, g, K, case['RG'], M=M, vals='gauss')
         f = (lambda a, b, c: torchtt.amen_mm(a, b, X0=c, eps=eps)) if guess is not None else (lambda a, b: torchtt.amen_mm(a, b, eps=eps))
         ops = (A, x)
+    if case['guess'] == 'block':
+        # rebuild the operands as direct sums over two index blocks and take the exact product of the first blocks as the guess (library + and @ / *, decided by C03/C04)
+        def emb(t, off, tot, op=False):
+            out = []
+            for c in t.cores:
+                sh = list(c.shape)
+                if op:
+                    big = torch.zeros([sh[0], tot, tot, sh[3]], dtype=c.dtype)
+                    big[:, off:off + sh[1], off:off + sh[2], :] = c
+                else:
+                    big = torch.zeros([sh[0], tot, sh[2]], dtype=c.dtype)
+                    big[:, off:off + sh[1], :] = c
+                out.append(big)
+            return torchtt.TT(out)
+        n1 = 3
+        tot = 2 * n1
+        if routine == 'dmrg_hadamard':
+            a1, a2, b1, b2 = (mk(case, g, [n1] * d, case['RA']) for _ in range(4))
+            A1e, A2e, x1e, x2e = emb(a1, 0, tot), emb(a2, n1, tot), emb(b1, 0, tot), emb(b2, n1, tot)
+            A = ctx.call('TT+TT', lambda p_, q_: p_ + q_, A1e, A2e)
+            x = ctx.call('TT+TT', lambda p_, q_: p_ + q_, x1e, x2e)
+            guess = ctx.call('TT*TT', lambda p_, q_: p_ * q_, A1e, x1e)
+            ref = dn.D(A) * dn.D(x)
+            wantN, wantM = [tot] * d, None
+        else:
+            a1, a2 = mk(case, g, [n1] * d, case['RA'], M=[n1] * d), mk(case, g, [n1] * d, case['RA'], M=[n1] * d)
+            b1, b2 = mk(case, g, [n1] * d, case['RB']), mk(case, g, [n1] * d, case['RB'])
+            A1e, A2e, x1e, x2e = emb(a1, 0, tot, True), emb(a2, n1, tot, True), emb(b1, 0, tot), emb(b2, n1, tot)
+            A = ctx.call('TTM+TTM', lambda p_, q_: p_ + q_, A1e, A2e)
+            x = ctx.call('TT+TT', lambda p_, q_: p_ + q_, x1e, x2e)
+            guess = ctx.call('TTM@TT', lambda p_, q_: p_ @ q_, A1e, x1e)
+            ref = torch.tensordot(dn.D(A), dn.D(x), dims=d)
+            wantN, wantM = [tot] * d, None
+        M = N = [tot] * d
+        ops = (A, x)
+        srep = dn.s_rep(A) * dn.s_rep(x)
+        nref = dn.fro(ref)
+        ctx.count('guess:block')
+        ctx.metric('block_guess_rel_error', dn.fro(dn.D(guess) - ref) / max(nref, 1e-300))
+        if routine == 'fast_matvec':
+            f = lambda a, b, c: a.fast_matvec(b, eps=eps, initial=c, use_cpp=False)
+        elif routine == 'dmrg_hadamard':
+            f = lambda a, b, c: torchtt.dmrg_hadamard(a, b, z0=c, eps=eps)
+        else:
+            f = lambda a, b, c: torchtt.amen_mv(a, b, x0=c, eps=eps)
     if case['guess'] == 'coarse':
         # the harness truncates the exact dense product itself (plain TT-SVD through the library constructor, which C01 decides)
         shape = [(m, k_) for m, k_ in zip(wantM, wantN)] if wantM is not None else list(wantN)
